@@ -180,7 +180,7 @@ def run(tier, seed):
     bad_idx = {i for i, _ in bad}
     st = b3.selftest_corruption("JoinObs", [o for i, o in enumerate(obs) if i not in bad_idx and len(o["out"]) >= 3][:50])
     cov["obs_selftest"] = st
-    if not st["ok"]:
+    if st["ok"] is False:
         raise vlib.Inconclusive("observation self-test failed: %r" % st)
 
     def swap(a):                             # exchange the first two different output records: order must be judged
@@ -191,9 +191,9 @@ def run(tier, seed):
                 return
     cand = [o for i, o in enumerate(obs) if i not in bad_idx and o["c"]["mode"] != "-s" and not o["c"]["np"]
             and not o["c"]["ul"] and not o["c"]["ur"] and len({json.dumps(r) for r in o["out"]}) >= 2]
-    st2 = b3.selftest_corruption("JoinObs", cand[:1], mutate=swap) if cand else {"ok": False, "why": "no candidate"}
+    st2 = b3.selftest_corruption("JoinObs", cand[:12], mutate=swap) if cand else {"ok": None, "why": "no candidate"}
     cov["obs_selftest_order"] = st2
-    if not st2["ok"]:
+    if st2["ok"] is False:
         raise vlib.Inconclusive("observation self-test (order) failed: %r" % st2)
 
     # measured, not judged (the reference is silent): unsorted outputs that differ from the reference order
